@@ -1,6 +1,6 @@
 (* E3 Algebra engine -- the executable form of C09 (Model.C09_holds_b, what the
    correspondence check evaluates on the implementation's outputs) is satisfied by the model
-   on EVERY case outside the recorded exception classes (float semirings; release-profile Cost):
+   on EVERY case outside the recorded exception class (float semirings):
    all item lists, all operation tables, all arities, all semiring values. *)
 From Coq Require Import List Bool NArith ZArith Arith Lia Floats.
 From HV Require Import Algebra.Model Algebra.PBasic Algebra.PPower Algebra.PCheckers Algebra.PSemiring.
@@ -89,7 +89,7 @@ Qed.
 Definition in_scope (c : acase) : Prop :=
   match c with
   | CSr t _ _ _ => exact_ty t
-  | CSrRel _ _ _ _ => False      (* release-profile Cost: refuted, PSemiring.cost_release_not_semiring *)
+  | CSrRel t _ _ _ => exact_ty t
   | _ => True
   end.
 
@@ -126,6 +126,7 @@ Proof.
       apply existsb_exists in E. destruct E as (u & Hu & E). destruct u; try discriminate.
       contradiction.
   - apply pow_holds.
+  - apply sr_laws_b_model. assumption.
   - apply sr_laws_b_model. assumption.
   - (* constructors *)
     destruct t, a; cbn [sr_new option_map osval_eqb]; auto;
